@@ -223,6 +223,20 @@ def correspondence(ctx):
         ctx.count("corr_diff_" + (r.split()[1] if r.startswith("err") else "ok"))
         if i % 4 == 0:
             reqs.append("rd.diffn 1 %s %s" % (L.t_wire(a), L.t_wire(b))); exp.append(r)
+    # the history of a difference object: relativedelta(dt1, dt2) used / mutated / used again follows its CURRENT fields
+    for site in L.write_audit():
+        ctx.mismatch("rd.write_audit", site, "a method of relativedelta writes state outside " + "/".join(L.WRITERS_ALLOWED),
+                     "model: a use leaves the record alone (RDH.step)")
+    hr = ctx.subrng("corr-history")
+    from dateutil.relativedelta import relativedelta as _rd
+    starts = []
+    for _ in range(ctx.budget(150, 1500)):
+        try:
+            starts.append(_rd(L.g_temporal(hr, ("d", "n")), L.g_temporal(hr, ("d", "n"))))
+        except Exception:
+            pass
+    hq, he = L.history_corr(ctx, hr, starts, 6, "corr_history")
+    reqs += hq; exp += he
     reqs, exp = L.with_generated(reqs, exp)
     ctx.count("corr_generated_requests", sum(1 for q in reqs if q.startswith("rdgen.")))
     got = ctx.driver(reqs)
@@ -392,6 +406,11 @@ def oracle(ctx):
         if unknown_failures(ctx) >= STOP_AFTER or ctx.hist.get("oracle_hang", 0) >= 5:
             ctx.note("oracle sweep stopped early: %d failing inputs in hand" % len(ctx.violations))
             return
+    # the history of a difference object: use -> mutate (weeks setter / attribute assignment) -> use again; every observation
+    # (dt2 + d included) equals that of a fresh object with the current fields
+    L.history_oracle(ctx, ctx.subrng("oracle-history"),
+                     lambda r: ("diff", L.t_wire(L.g_temporal(r, ("d", "n"))), L.t_wire(L.g_temporal(r, ("d", "n")))),
+                     ctx.budget(400, 5000), 8, "history_diff")
     # aware operands of one zone held by two distinct tzinfo objects (CPython: UTC comparison / subtraction)
     with L.process_tz("America/New_York"):
         for a, b, offs, model in distinct_pairs(ctx, ctx.subrng("oracle-distinct"), ctx.budget(8000, 100000)):
@@ -442,6 +461,8 @@ KNOWN = {"D-C09-distinct-tzinfo-objects": _distinct_known}
 def replay(ctx, payload):
     c = payload["violation"]["case"]
     sub = L.vlib.Ctx(PROP, "quick", ctx.seed)
+    if c.get("law") == "history":
+        return L.replay_history(c)
     if c.get("distinct_objects"):
         with L.process_tz("America/New_York"):
             a, b = L.parse_t(c["a"].split()), L.parse_t(c["b"].split())
